@@ -37,6 +37,23 @@ pub fn local_from_ns(ns: i64) -> DateTime<Local> {
     Local.timestamp_nanos(ns)
 }
 
+/// UTC is forced per process (it cannot be taken back): some C20 shards run with it.
+static FORCED_UTC: std::sync::atomic::AtomicBool = std::sync::atomic::AtomicBool::new(false);
+pub fn set_forced_utc() {
+    FORCED_UTC.store(true, std::sync::atomic::Ordering::SeqCst);
+}
+pub fn forced_utc() -> bool {
+    FORCED_UTC.load(std::sync::atomic::Ordering::SeqCst)
+}
+/// the text a record timestamp is expected to have: local time, or UTC where it is forced
+pub fn ts_text(ns: i64, fmt: &str) -> String {
+    if forced_utc() {
+        chrono::Utc.timestamp_nanos(ns).format(fmt).to_string()
+    } else {
+        Local.timestamp_nanos(ns).format(fmt).to_string()
+    }
+}
+
 // ------------------------------------------------------------------------------------------
 // plan / trace / creation table
 
